@@ -2,6 +2,7 @@
 import re
 from vx.assemble import Builder, Clause
 from vx import extract as X, dialect as D
+from units import verbose as VB
 
 def fmt_pre(text, log, where):
     return D.expand_format_macros(text, log, where)
@@ -12,11 +13,12 @@ def spec_literals(spec_dir):
 def build(repo, spec_dir, canary=False):
     b = Builder('render', repo, canary)
     LITS = spec_literals(spec_dir)
-    b.emit('use vstd::prelude::*;\nverus! {')
+    b.emit('#![feature(allocator_api)]\nuse vstd::prelude::*;\nuse std::collections::BTreeSet;\nverus! {')
     b.type_item('quantifier.rs', r'^pub enum Quantifier \{')
     b.type_item('component.rs', r'^pub\(crate\) enum Component \{')
     b.emit('pub mod fm {\nuse super::*;'); b.emit(open(spec_dir + '/fmt_model.rs').read()); b.emit('}\nuse fm::*;')
     b.emit('pub mod sp {\nuse super::*;'); b.emit(open(spec_dir + '/render.rs').read()); b.emit('}\nuse sp::*;')
+    b.emit('pub mod rm {\nuse super::*;'); b.emit(open(spec_dir + '/replace_model.rs').read()); b.emit('}\nuse rm::*;')
     b.emit('''impl VxShow for Quantifier { open spec fn shown(&self) -> Seq<char> { quant_plain(*self) } #[verifier::external_body] fn vx_show(&self) -> (r: String) { unimplemented!() } }
 impl VxShow for Component { open spec fn shown(&self) -> Seq<char> { plain(*self) } #[verifier::external_body] fn vx_show(&self) -> (r: String) { unimplemented!() } }
 pub assume_specification [<Quantifier as Clone>::clone] (e: &Quantifier) -> (r: Quantifier) ensures r == *e;''')
@@ -77,12 +79,13 @@ impl Grapheme {""")
     rx = b.src('regexp.rs')
     disp, _, _ = X.item(rx, r"^impl Display for RegExp<'_> \{")
     stm = '\n        '.join(X.let_stmt(disp, v)[0] for v in ['flag', 'caret', 'dollar_sign'])
-    b.emit("""pub struct AstView { pub is_alternation: bool }
-pub uninterp spec fn ast_text(a: AstView) -> Seq<char>;
-impl VxShow for AstView { open spec fn shown(&self) -> Seq<char> { ast_text(*self) } #[verifier::external_body] fn vx_show(&self) -> (r: String) { unimplemented!() } }
-pub struct RegExpView<'a> { pub ast: AstView, pub config: &'a RegExpConfig }
+    b.type_item('cluster.rs', r"^pub struct GraphemeCluster<'a> \{")
+    b.type_item('expression.rs', r"^pub enum Expression<'a> \{")
+    b.type_item('regexp.rs', r"^pub struct RegExp<'a> \{")
+    b.emit("""pub uninterp spec fn ast_text(a: Expression) -> Seq<char>;      // Display for Expression (format.rs): opaque in this unit
+impl<'a> VxShow for Expression<'a> { open spec fn shown(&self) -> Seq<char> { ast_text(*self) } #[verifier::external_body] fn vx_show(&self) -> (r: String) { unimplemented!() } }
 pub open spec fn repr_ok(r: Seq<char>, c: Component, colorized: bool) -> bool { if colorized { colored_ok(r, c) } else { r =~= plain(c) } }
-impl<'a> RegExpView<'a> {""")
+impl<'a> RegExp<'a> {""")
     cfg = 'self.config.'
     b.slice_fn('display_prefix', 'pub fn display_prefix(&self) -> (r: (String, String, String))', '        ' + stm, 'regexp.rs::Display for RegExp let flag/caret/dollar_sign',
                props=['C07'], epilogue='        (flag, caret, dollar_sign)', pre=fmt_pre, clauses=[
@@ -91,12 +94,11 @@ impl<'a> RegExpView<'a> {""")
         Clause('display.dollar', 'if %sis_end_anchor_disabled { r.2@.len() == 0 } else { repr_ok(r.2@, Component::DollarSign(%sis_verbose_mode_enabled), %sis_output_colorized) }' % ((cfg,) * 3), ['C08'])])
     # the statement that assembles flag + caret + body + dollar_sign, with the outer group around a top-level alternation
     st, _, _ = X.let_stmt(disp, 'regexp')
-    st = re.sub(r'match self\.ast \{\s*Expression::Alternation\(_, _, _, _\) =>', 'match self.ast.is_alternation {\n            true =>', st, count=1)
-    b.log.add('R7', 'regexp.rs::Display for RegExp let regexp', 'match self.ast { Expression::Alternation(..) => A, _ => B }', 'match self.ast.is_alternation { true => A, _ => B }  (the expression type is opaque in this unit)')
     b.slice_fn('display_assemble', 'pub fn display_assemble(&self, flag: String, caret: String, dollar_sign: String) -> (regexp: String)', '        ' + st, 'regexp.rs::Display for RegExp let mut regexp = match self.ast {..}',
                props=['C07'], epilogue='        regexp', pre=fmt_pre, clauses=[
-        Clause('display.assemble', 'exists|body: Seq<char>| #[trigger] (flag@ + caret@ + body + dollar_sign@) == regexp@ && (if self.ast.is_alternation { group_ok(body, %sis_capturing_group_enabled, ast_text(self.ast), %sis_verbose_mode_enabled, false, %sis_output_colorized) } else { body =~= ast_text(self.ast) })' % (cfg, cfg, cfg), ['C08', 'C06', 'C02'])])
+        Clause('display.assemble', 'exists|body: Seq<char>| #[trigger] (flag@ + caret@ + body + dollar_sign@) == regexp@ && (if self.ast is Alternation { group_ok(body, %sis_capturing_group_enabled, ast_text(self.ast), %sis_verbose_mode_enabled, false, %sis_output_colorized) } else { body =~= ast_text(self.ast) })' % (cfg, cfg, cfg), ['C08', 'C06', 'C02'])])
     b.emit('}')
+    VB.emit(b, disp, fmt_pre)
     b.emit('} // verus!\nimpl Clone for Quantifier { fn clone(&self) -> Self { unimplemented!() } }\nfn main() {}')
     b.trusted += ['formatting model (rule R16): format!/write! with {} holes concatenate the Display renderings of their arguments in order; X.to_string() is the Display rendering (blanket ToString)',
                   'decimal rendering of u32 is uninterpreted (`dec`); derived Clone on Quantifier structural',
